@@ -36,8 +36,10 @@ MANIFEST = {
             "faithfully (Verify+CalculateRoot byte level) and proved SOUND for any number of queries under an injective, domain-separated "
             "hash, end to end against the map (a non-empty value is in the map, an empty value or a different query key means the "
             "requested key is absent); completeness is proved only for the canonical proof of one key; MULTI-KEY COMPLETENESS (a proof "
-            "generated for any set of query keys verifies) is NOT proved - missing: node-hash distinctness in a well-formed trie and "
-            "the lock-step simulation of calculateSiblingHashes with CalculateRoot's work list (docs/C10.md) - and rests on the test "
+            "generated for any set of query keys verifies) is NOT proved - proved stepping stones: distinct nodes of a well-formed trie "
+            "have distinct hashes (C10_node_hash_distinct), honest bitmaps have a true bottom bit and survive the wire "
+            "(C10_honest_bitmap_bottom_bit, C10_bitmap_wire_roundtrip); missing: the lock-step simulation of calculateSiblingHashes "
+            "(multiset work list with twins, dedup by hash) with CalculateRoot's work list, stated precisely in docs/C10.md - so it rests on the test "
             "(every honest multi-key proof must verify in Go and in the model). Verify/CalculateRoot/Prove models are tied to the Go code on every case: Go proofs must equal model proofs "
             "and verify in both, every tampered proof gets the same verdict in both and, if accepted, must state only true claims.",
     "note": "Trusted: Coq kernel + vm_compute, in-Coq SHA-256 (checked on FIPS vectors), Go harness and Python glue. The refinement "
